@@ -6,7 +6,9 @@
 (*      accepted iff Obligation(script, opts, result); for the product serializer the chunks handed to the  *)
 (*      Writer must not cut a UTF-8 sequence / surrogate pair (splits = 0; UTF-16 output is copied through  *)
 (*      unit by unit and is exempt), and where the script was exported from MC_WriterBuffer the chunk       *)
-(*      lengths predicted by the model (pred) must be a prefix of the observed ones.                        *)
+(*      lengths predicted by the model (pred) must be a prefix of the observed ones (a rejection for that    *)
+(*      reason alone is marked MODEL-MISMATCH: the bytes are right, WriterBufferImpl no longer describes the *)
+(*      code - the check reports it as model drift, not as a violation of the property).                     *)
 (*   [e |-> "Agree", enc, ver, script, a, b]   the results of the two serializers for one script must agree *)
 (* Scripts outside the model (code points whose encodability the model does not define; direct scripts       *)
 (* outside the caller's contract) are dropped and counted.                                                  *)
@@ -37,7 +39,7 @@ C04Step(s, ev) ==
        IN [ok |-> obl /\ splitOK /\ predOK, st |-> s, drop |-> FALSE, cont |-> TRUE,
            msg |-> IF ~obl THEN Why(ev.script, o, r)
                    ELSE IF ~splitOK THEN "a flush of the staging buffer cuts a multi-unit character (" \o ToString(ev.splits) \o " chunks start inside one)"
-                   ELSE "flush pattern differs from the buffer model: predicted " \o ToString(ev.pred) \o " observed " \o ToString(ev.chunks)]
+                   ELSE "MODEL-MISMATCH flush pattern differs from the buffer model: predicted " \o ToString(ev.pred) \o " observed " \o ToString(ev.chunks)]
   ELSE LET a == Result(ev.a)
            b == Result(ev.b) IN
        [ok |-> Agree(a, b), st |-> s, drop |-> FALSE, cont |-> TRUE,
